@@ -24,8 +24,8 @@ PROPS["C05"] = dict(
 
 PROPS["C05"] = dict(
     level="proof",
-    modules=["contracts.c_var_int", "contracts.c_tx"],
-    not_decided=["p2p payloads, PSBT maps, JSON forms (to_dict/from_dict): outside the executed subset so far",
+    modules=["contracts.c_var_int", "contracts.c_tx", "contracts.c_dsa_der", "contracts.c_json", "contracts.c_psbt_combine"],
+    not_decided=["p2p payloads, Block, key origins: not under contract; PSBT maps and JSON forms: bounded stand-ins only",
                  "Tx-level composition is proved for list lengths vin 1..2, vout 1..2, witness stacks of 0..2 items and element scripts shorter than 253 bytes (bounded in those parameters); element codecs are proved for every length"],
     assumptions=["payload sizes are at most var_int.MAX_SIZE (32 MiB), the protocol's own message bound"],
     bounded=[],
